@@ -4,11 +4,8 @@ namespace Shexer
 namespace Emit
 open Shexer
 
-def cardStr : Card → String
-  | Card.exact k => "{" ++ toString k ++ "}"
-  | Card.plus => "+"
-  | Card.star => "*"
-  | Card.opt => "?"
+/-- `cardinality_representation` inside a comment (generated from the AST) -/
+def cardStr (c : Card) : String := Gen.cardinality_representation c false
 
 def commentLine (c : Comment) : String :=
   "CM\t" ++ toString c.n ++ "\t" ++ (c.ty.getD "~choice") ++ "\t" ++ cardStr c.card
